@@ -371,13 +371,19 @@ theorem sidecarLoad_fits (m : TMesh) (hm : m.Inv) (sc : List (String × H5Region
       = .ok ((dictOf (sc.map fun p => (p.1, p.2.region))).map (stampSub m.region)) := by
     unfold setSubs
     have hall : (dictOf (sc.map fun p => (p.1, p.2.region))).all
-        (fun p => subAccept m.region.toRegion m.n p.2.toRegion) = true := by
+        (fun p => candOk m.region m.n p.2) = true := by
       rw [List.all_eq_true]
       intro q hq
       obtain ⟨p, hp, rfl⟩ := List.mem_map.mp (mem_dictOf _ _ hq)
       simp only
-      rw [H5Region.region_toRegion]
-      exact subAccept_of_fits m hm _ (hfit p hp)
+      obtain ⟨l1, l2, hlt⟩ := hent p hp
+      obtain ⟨w1, w2, w3⟩ := hwf p hp
+      have hnd' : m.region.ndim = m.region.pmin.length := rfl
+      have hrl := regionLoad_ordered p.2 (by rw [l1, hnd']; exact h0) (by rw [l1, l2]) (by rw [w1, l1]) w2 (by rw [w3, l1])
+        (by rw [l1]; exact hlt)
+      have hpinv : p.2.region.Inv := (init_ok _ _ _ _ _ _ (initKw_ok _ _ _ _ _ _ hrl)).1
+      rw [candOk_eq m.region hr m.n _ hpinv, H5Region.region_toRegion]
+      exact subAccept_of_fits m hm _ (C14.fitsE_congr m.toMesh m.toMesh p.2.toRegion _ rfl rfl rfl rfl (hfit p hp))
     simp only [hall, Bool.not_true, Bool.false_eq_true, if_false]
     apply mapE_ok_of
     intro q hq
@@ -430,7 +436,7 @@ theorem sidecar_mesh_inv (m : TMesh) (hm : m.Inv) (sc : List (String × H5Region
       have : p.2.pmax.vals.length = m.toMesh.ndim := l2
       rwa [NumArr.vals_length, hnd] at this
     rw [subInv_iff]
-    simp only [stampSub, H5Region.region, NumArr.cast_length, NumArr.cast_kind, hv1, hv2]
+    simp only [stampSub, H5Region.region, TReg.toRegion, NumArr.cast_length, NumArr.cast_kind, hv1, hv2]
     refine ⟨e1, e2, trivial, trivial, trivial, trivial, fun a ha => (hb a (by rw [hnd]; exact ha)).2.1, ?_⟩
     apply subAccept_of_fits m hm
     exact C14.fitsE_congr m.toMesh m.toMesh p.2.toRegion _ rfl rfl rfl rfl (hfit p hp)
